@@ -3,6 +3,7 @@ package main
 import (
 	"fmt"
 	"go/types"
+	"regexp"
 	"strings"
 )
 
@@ -21,11 +22,20 @@ func (m Mode) String() string {
 }
 
 // typeKey gives a stable, package-qualified short string for a Go type.
+var aliasWordRe = regexp.MustCompile(`\b(byte|rune)\b`)
+
 func typeKey(t types.Type) string {
-	return types.TypeString(t, func(p *types.Package) string {
+	s := types.TypeString(t, func(p *types.Package) string {
 		path := p.Path()
 		path = strings.TrimPrefix(path, modulePath+"/src/")
 		return path
+	})
+	// byte/uint8 and rune/int32 are identical types: one heap component each
+	return aliasWordRe.ReplaceAllStringFunc(s, func(w string) string {
+		if w == "byte" {
+			return "uint8"
+		}
+		return "int32"
 	})
 }
 
